@@ -27,6 +27,8 @@ def main(argv):
             tier = argv[i + 1]; i += 1
         elif argv[i] == '--replay':
             replay = argv[i + 1]; i += 1
+        elif argv[i] in ('quick', 'thorough'):
+            tier = argv[i]
         i += 1
     if tier not in ('quick', 'thorough'):
         tier = 'quick'
